@@ -118,6 +118,30 @@ var (
 // alias patterns for z = op(a,b): the 5 set partitions of {z,a,b}.
 var binAliases = []string{"z|a|b", "z=a|b", "z=b|a", "a=b|z", "z=a=b"}
 
+// checkResult compares a result object with the model value: canonical bytes,
+// the representation invariant (stored limbs < n, through the limb hook) and
+// the public observers Equal / IsZero, which read the stored limbs directly.
+func checkResult(z *SC, exp *big.Int) string {
+	if got := z.Bytes(); !bytes.Equal(got, ref.B32(exp)) {
+		return fmt.Sprintf("result %x, model %x", got, ref.B32(exp))
+	}
+	if l := limbsBig(secp256k1.VerifScalarLimbs(z)); l.Cmp(ref.N) >= 0 {
+		return fmt.Sprintf("result stored unreduced: limbs %x >= n (model %x)", l, exp)
+	}
+	e := mk(exp)
+	if z.Equal(e) != 1 || e.Equal(z) != 1 {
+		return fmt.Sprintf("result encodes as the model value %x but Equal(model) = 0", exp)
+	}
+	wz := uint64(0)
+	if exp.Sign() == 0 {
+		wz = 1
+	}
+	if z.IsZero() != wz {
+		return fmt.Sprintf("IsZero of result = %d, model %d", z.IsZero(), wz)
+	}
+	return ""
+}
+
 func runBin(op *binop, va, vb *big.Int, al int) string {
 	if al >= 3 && va.Cmp(vb) != 0 {
 		return ""
@@ -141,8 +165,8 @@ func runBin(op *binop, va, vb *big.Int, al int) string {
 	if ret != z {
 		return "did not return the receiver"
 	}
-	if got := z.Bytes(); !bytes.Equal(got, ref.B32(exp)) {
-		return fmt.Sprintf("result %x, model %x", got, ref.B32(exp))
+	if m := checkResult(z, exp); m != "" {
+		return m
 	}
 	if a != z && !bytes.Equal(a.Bytes(), ref.B32(va)) {
 		return "operand a modified"
@@ -164,8 +188,8 @@ func runUn(op *unop, va *big.Int, aliased bool) string {
 	if ret != z {
 		return "did not return the receiver"
 	}
-	if got := z.Bytes(); !bytes.Equal(got, ref.B32(exp)) {
-		return fmt.Sprintf("result %x, model %x", got, ref.B32(exp))
+	if m := checkResult(z, exp); m != "" {
+		return m
 	}
 	if !aliased && !bytes.Equal(a.Bytes(), ref.B32(va)) {
 		return "operand modified"
@@ -310,8 +334,8 @@ func runVec(product bool, objs []*big.Int, slots []int, recv int) string {
 	if ret != z {
 		return "did not return the receiver"
 	}
-	if !bytes.Equal(z.Bytes(), ref.B32(exp)) {
-		return fmt.Sprintf("result %x, model %x", z.Bytes(), ref.B32(exp))
+	if m := checkResult(z, exp); m != "" {
+		return m
 	}
 	for i, o := range os {
 		if o != z && !bytes.Equal(o.Bytes(), ref.B32(objs[i])) {
